@@ -21,7 +21,7 @@ panics, or for `hi ≤ cap` re-slices into bytes the model does not have). The t
 -/
 namespace Nsq.Model.ByteOps
 
-abbrev Bytes := List UInt8
+export Nsq.Model.Wire (Bytes)
 
 inductive Res (α : Type) where
   | ret (v : α)
